@@ -128,6 +128,8 @@ class Verdict:
             "inconclusive": self.inconclusive,
             "known_findings_matched": self.known_hits,
         }
+        if self.violations:
+            coverage["violation_mechanisms"] = sorted({m for m, _, _ in self.violations})
         if self.exhaustive is not None:
             coverage["exhaustive"] = self.exhaustive
         coverage.update(self.extra)
@@ -145,6 +147,11 @@ class Verdict:
             os.makedirs(os.path.join(VERIF_HOME, "evidence"), exist_ok=True)
             with open(os.path.join(VERIF_HOME, "evidence", f"{self.prop}.json"), "w") as fd:
                 json.dump(evidence, fd, indent=1, default=str)
+        mechanisms = {}
+        for mechanism, _, _ in self.violations:
+            mechanisms[mechanism] = mechanisms.get(mechanism, 0) + 1
+        if mechanisms:
+            print(f"{self.prop}: violation mechanisms {json.dumps(mechanisms, sort_keys=True)}"[:3000], flush=True)
         verdict = "VIOLATED" if self.violations else "held on what was observed"
         print(f"{self.prop}: {verdict}; evaluations={self.evaluations} distinct_nontrivial={len(self.distinct)} "
               f"violations={len(self.violations)} known={sum(self.known_hits.values())} "
